@@ -586,7 +586,8 @@ def threads_part(ctx, thorough):
         return
     rng = ctx.rng
     scripts = ["start,close", "start,get,close", "on,start,trig,close", "on,start,close", "start,stop,start,close", "start,get,get,stop,close",
-               "on,start,trig,get,off,close", "close", "start,stop,close", "start,get,stop,start,get,close"]
+               "on,start,trig,get,off,close", "close", "start,stop,close", "start,get,stop,start,get,close",
+               "start,getsmall,close", "start,get,getsmall,off,start,get,stop,close", "on,start,trig,getsmall,on,start,stop,close"]
     cases, meta = [], []
     n = 0
     for a in scripts:
@@ -606,6 +607,11 @@ def threads_part(ctx, thorough):
         closes += sum(1 for l in r.lines if l.startswith("r A close ok"))
         if r.terminal and not r.terminal.startswith(("DEADLOCK", "deadlock")) or (r.terminal and "CRASH" in r.terminal):
             pass
+        for o in r.oracle:
+            if "streamer-alive" in o:
+                bad += 1
+                ctx.violation("oracle", "h_simcam_conc:streamer-alive-after-stop", "real simulated camera behind the HAL: %s  [%s]" % (o, line),
+                              {"harness": "h_simcam_conc", "case": line, "schedule": r.schedule})
         if r.terminal and ("CRASH" in r.terminal or "MISUSE" in r.terminal.upper() or "STEP" in r.terminal.upper() or "HANG" in r.terminal.upper() or "DEADLOCK" in r.terminal.upper()):
             bad += 1
             m = re.search(r"ERROR: \w+Sanitizer[^\n]*(?:\n\s+#\d[^\n]*){0,4}", r.terminal)
